@@ -332,12 +332,14 @@ def xls_file(stream):
 
 
 # ------------------------------------------------------------------ ods
-def ods_rows_events(strings):
-    """one row per string: a string cell; no white space between the elements of a row"""
+def ods_rows_events(strings, pretty=False):
+    """one row per string: a string cell; pretty: indented the way a pretty-printing writer does
+    it (white space between the rows, between the cells and around the paragraph)"""
     ev = []
+    w = (lambda k: [T("\n" + "  " * k)]) if pretty else (lambda k: [])
     for s in strings:
-        ev += [S("table:table-row"), S("table:table-cell", [("office:value-type", "string")]),
-               S("text:p"), T(s), E("text:p"), E("table:table-cell"), E("table:table-row")]
+        ev += w(3) + [S("table:table-row")] + w(4) + [S("table:table-cell", [("office:value-type", "string")])] + w(5) + \
+              [S("text:p"), T(s), E("text:p")] + w(4) + [E("table:table-cell")] + w(3) + [E("table:table-row")]
     return ev
 
 
